@@ -3,6 +3,7 @@ import Walrus.Driver.SectionsD
 import Walrus.Driver.VisitD
 import Walrus.Driver.BodyD
 import Walrus.Driver.CodeD
+import Walrus.Driver.OffsetsD
 
 open Walrus.Driver
 
@@ -13,6 +14,7 @@ def dispatch (line : String) : String :=
   | "visit" :: rest => handleVisit rest
   | "builder" :: rest => handleBuilder rest
   | "code" :: rest => handleCode rest
+  | "offsets" :: rest => handleOffsets rest
   | _ => "bad-request"
 
 partial def loop (h : IO.FS.Stream) (out : IO.FS.Stream) : IO Unit := do
